@@ -211,7 +211,15 @@ func (c *codegen) emitLoadConst(t types.TypeAndValue) {
 		types.Int8, types.Uint8,
 		types.Int16, types.Uint16,
 		types.Int32, types.Uint32, types.Int64:
-		val, _ := constant.Int64Val(t.Value)
+		val, exact := constant.Int64Val(t.Value)
+		if !exact {
+			// An untyped operand of a constant expression may be out of the int64
+			// range (e.g. 9223372036854775808 in -9223372036854775808).
+			if bi, ok := constant.Val(constant.ToInt(t.Value)).(*big.Int); ok {
+				emit.BigInt(c.prog.BinWriter, bi)
+				return
+			}
+		}
 		emit.Int(c.prog.BinWriter, val)
 	case types.Uint64:
 		val, _ := constant.Int64Val(t.Value)
